@@ -19,6 +19,8 @@ def implRows (label : String) : M (Option Nat) := do
   | ["map", _, r] => pure (r.toNat?.map (fun r0 => max r0 s.maxRows))
   | _ => pure none
 
+def nonZeroPlaceholder : H256 := ⟨0x0100000000000000, 0, 0, 0⟩
+
 def handleNew : M Unit :=
   modify fun s => { s with forest := ⟨[]⟩, stack := [], idx := none, maxRows := 0, extra := {},
                            blocks := [], cache := [] }
@@ -30,7 +32,12 @@ def handleBlock (line : String) (toks : List String) : M Unit := do
     | some dels, some adds =>
       let s ← get
       let f' := s.forest.modify dels adds
-      set { s with stack := s.forest :: s.stack, blocks := (dels, adds) :: s.blocks, forest := f', idx := none,
+      let afterDel := s.forest.delLeaves dels
+      let destroyed := match rootsToDestroy nonZeroPlaceholder adds.length (BitVec.ofNat 64 afterDel.numLeaves) afterDel.roots with
+        | .ok l => !l.isEmpty
+        | _ => false
+      let bi : BlockInfo := { dels := dels, adds := adds, prevN := s.forest.numLeaves, destroyed := destroyed }
+      set { s with stack := s.forest :: s.stack, blocks := bi :: s.blocks, forest := f', idx := none,
                    maxRows := max s.maxRows (forestRows f'.numLeaves) }
       count "block" line (dels.length + adds.length > 0)
     | _, _ => parseError line
@@ -43,9 +50,9 @@ def handleUndo (line : String) : M Unit := do
     -- a cached proof loses the leaves the undone block added; the leaves it deleted are
     -- documented as not restored
     let adds := match s.blocks with
-      | (_, a) :: _ => a
+      | b :: _ => b.adds
       | [] => []
-    set { s with forest := f, stack := rest, blocks := s.blocks.drop 1, idx := none,
+    set { s with forest := f, stack := rest, blocks := s.blocks.drop 1, lastUndone := s.blocks.head?, idx := none,
                  cache := s.cache.filter (fun x => !adds.contains x) }
     count "undo" line
   | [] => parseError line
@@ -173,10 +180,15 @@ def cachedGot (hs : List H256) (ts : List U64) (ps : List H256) : String :=
   s!"{nats (pairs.map (·.1))} {hxs (pairs.map (·.2))} {hxs ps}"
 
 /-- compare what the light client holds with the canonical proof of the expected set -/
-def checkCached (kind : String) (line : String) (rest : List String) : M Unit := do
+def checkCached (kind : String) (line : String) (rest : List String) (knownCls : Option String := none) : M Unit := do
   let s ← get
   let I ← getIndex
   count kind line (!s.cache.isEmpty)
+  let mismatch (k e g : String) : M Unit :=
+    match knownCls with
+    | some cls => knownFinding cls s!"{k}: expected {trunc e 120} got {trunc g 120}"
+    | none => mismatch k e g
+  let expectEq (k e g : String) : M Unit := if e == g then pure () else mismatch k e g
   match rest with
   | [hs, ts, ps, v] =>
     match parseHashes hs, parseU64s ts, parseHashes ps with
@@ -199,7 +211,7 @@ def handleCUpdate (line : String) (toks : List String) : M Unit := do
     | some rem =>
       let s ← get
       let (dels, adds) := match s.blocks with
-        | b :: _ => b
+        | b :: _ => (b.dels, b.adds)
         | [] => ([], [])
       let remembered := rem.filterMap (fun i => adds[i]?)
       set { s with cache := s.cache.filter (fun x => !dels.contains x) ++ remembered }
@@ -208,9 +220,16 @@ def handleCUpdate (line : String) (toks : List String) : M Unit := do
   | [] => parseError line
 
 /-- `cundo <hashes> <targets> <proof> v=<verify>`: follows the `undo` line -/
-def handleCUndo (line : String) (toks : List String) : M Unit := checkCached "cundo" line toks
-
-def nonZeroPlaceholder : H256 := ⟨0x0100000000000000, 0, 0, 0⟩
+def handleCUndo (line : String) (toks : List String) : M Unit := do
+  let s ← get
+  -- Known findings (see /verif/known_findings.jsonl): Proof.Undo loses or keeps leaves when
+  -- the undone block's additions overwrote empty roots, and when it undoes back to the empty
+  -- accumulator.  Deviations are attributed to those classes only for such blocks.
+  let cls := match s.lastUndone with
+    | some b => if b.prevN == 0 then some "C08.undo.toEmpty"
+                else if b.destroyed then some "C08.undo.emptyRootsOverwritten" else none
+    | none => none
+  checkCached "cundo" line toks cls
 
 /-- `stump <roots> <n> update <D> <A> <T> <P> <result…>` -/
 def handleStump (line : String) (toks : List String) : M Unit := do
